@@ -89,7 +89,7 @@ Print Assumptions patch_exists_exactly_while_snapshot_exists.
 Theorem all_invariants_hold_in_every_reachable_world :
   forall (I : iface) (ops : list story_op) (w : world),
     InvAll w -> no_panic I sw_now ops w -> InvAll (run_story_ops I sw_now ops w).
-Proof. exact (fun I => PatchInv.all_invariants_preserved I sw_now now_cont_check_first). Qed.
+Proof. exact (fun I => PatchInv.all_invariants_preserved I sw_now now_cont_check_first now_counter_dec_first). Qed.
 Check all_invariants_hold_in_every_reachable_world :
   forall (I : iface) (ops : list story_op) (w : world),
     InvAll w -> no_panic I sw_now ops w -> InvAll (run_story_ops I sw_now ops w).
@@ -102,7 +102,7 @@ Theorem reachable_worlds_without_snapshot_are_patch_free :
     no_panic I sw_now ops (world_init st seed fuel) ->
     w_snapshot (run_story_ops I sw_now ops (world_init st seed fuel)) = None ->
     patch_free (w_state (run_story_ops I sw_now ops (world_init st seed fuel))).
-Proof. exact (fun I ops st seed fuel => PatchInv.reachable_patch_free I sw_now now_cont_check_first ops st seed fuel). Qed.
+Proof. exact (fun I ops st seed fuel => PatchInv.reachable_patch_free I sw_now now_cont_check_first now_counter_dec_first ops st seed fuel). Qed.
 Check reachable_worlds_without_snapshot_are_patch_free :
   forall (I : iface) (ops : list story_op) (st : story) (seed : Z) (fuel : N),
     no_panic I sw_now ops (world_init st seed fuel) ->
